@@ -124,6 +124,10 @@ def check(rep, tier, seed):
                 rep.fail(kind="cli-vs-model", cls="view:model", case=case[:300], argv=["sfs"] + job[0], stdin=job[1].decode(),
                          observed={"rc": rc, "stdout": so.decode(errors="replace")[:300]}, expected=m[:300],
                          detail="sfs view differs from the proved model of the pipeline")
+        if m.startswith("ERR") and (rc == 0 or so != b""):
+            rep.fail(kind="cli-vs-model", cls="view:error-expected", case=case[:300], argv=["sfs"] + job[0], stdin=job[1].decode(),
+                     observed={"rc": rc, "stdout": so.decode(errors="replace")[:300]}, expected=m[:100],
+                     detail="the model rejects these options for this spectrum; sfs view must fail without output")
         # single-option oracles
         if subset == (0, 0, 1, 0) and rc == 0:
             p = parse_text_spectrum(so)
@@ -145,6 +149,43 @@ def check(rep, tier, seed):
             if so != want:
                 rep.fail(kind="property-oracle", cls="view:identity", case=case[:300], argv=["sfs", "view"], stdin=job[1].decode(),
                          observed=so.decode()[:300], expected=want.decode()[:300], detail="view without options must reproduce its input")
+    # inadmissible option values: the pipeline must stop with an error, whatever else is asked for - axes named twice
+    # (adjacent or not), out of range, all axes; targets larger than the source on one axis (also when the element count
+    # happens to be the same: transposed shapes), of another dimensionality (same element count or not), zero
+    bad_jobs, bad_cases = [], []
+    for _ in range(10 if tier == "quick" else 100):
+        d = rng.randrange(2, 5)
+        sh = [rng.randrange(2, 6) for _ in range(d)]
+        if len(set(sh)) == 1:
+            sh[0] += 1
+        data = [str(rng.randrange(0, 50)) for _ in range(elements(sh))]
+        inp = text_spectrum(sh, data)
+        a, b = rng.sample(range(d), 2)
+        margs = [[a, a], [a, b, a], [d], [a, d + 3], list(range(d)), list(range(d)) + [0]]
+        projs = [sh[::-1], sorted(sh), sorted(sh, reverse=True), [elements(sh)], sh[:-2] + [sh[-2] * sh[-1]], sh + [1], [0] * d, [n + 1 for n in sh],
+                 [sh[0] + 1] + sh[1:], sh[:-1] + [0]]
+        projs = [t for t in projs if t != sh]
+        for ml in margs:
+            for extra, ek, en in (([], 0, 0), (["--normalize"], 0, 1), (["--mask-monomorphic"], 1, 0)):
+                bad_jobs.append((["view", "-m", ",".join(map(str, ml))] + extra, inp))
+                bad_cases.append("viewrun r:%s - %d %d %s %s" % (fmt(ml), ek, en, fmt(sh), ",".join(data)))
+        for to in projs:
+            for extra, ek, en in (([], 0, 0), (["--mask-monomorphic", "--normalize"], 1, 1)):
+                bad_jobs.append((["view", "--project-shape", ",".join(map(str, to))] + extra, inp))
+                bad_cases.append("viewrun - %s %d %d %s %s" % (fmt(to), ek, en, fmt(sh), ",".join(data)))
+    for job, (rc, so, se), m, mc in zip(bad_jobs, run_cli_many(bad_jobs), run_model(bad_cases), bad_cases):
+        case = " ".join(job[0]) + " <<< " + job[1].decode().split("\n")[0]
+        rep.count("view-inadmissible-options", case[:300], True)
+        if not m.startswith("ERR"):
+            # a generated target that happens to be admissible (e.g. a sorted shape equal to a valid reduction): compare as usual
+            if m.startswith("OK") and rc != 0:
+                rep.fail(kind="cli-vs-model", cls="view:model", case=case[:300], argv=["sfs"] + job[0], stdin=job[1].decode(), observed={"rc": rc}, expected=m[:200],
+                         detail="the model accepts these options; sfs view failed")
+            continue
+        if is_panic(rc, se) or rc == 0 or so != b"":
+            rep.fail(kind="cli-vs-model", cls="view:error-expected", case=case[:300], argv=["sfs"] + job[0], stdin=job[1].decode(),
+                     observed={"rc": rc, "stdout": so.decode(errors="replace")[:300], "stderr": se.decode(errors="replace")[-200:]}, expected=m[:100],
+                     detail="inadmissible marginalization list / projection target: sfs view must fail with a diagnostic and without output")
     rep.assumptions += ["intermediate files are npy (lossless, C07); the same float operations in the same order make the chained and the "
                         "combined outputs byte-identical", "normalisation of an all-zero spectrum (0/0) is outside the theorems and not generated"]
 
